@@ -311,8 +311,10 @@ def adversarial_incremental_solve(script, extra_cfg=None):
     box = {"target": setup[0], "is_min": setup[1]}
     old = ps_solver.z3
     ps_solver.z3 = Proxy("z3proxy")
+    said = io.StringIO()
     try:
-        with silent():
+        with contextlib.redirect_stdout(said), warnings.catch_warnings():
+            warnings.simplefilter("ignore")
             s = ps.SchedulingSolver(problem=real.problem, max_time=30, optimizer="incremental", **(extra_cfg or {}))
             s.initialize()
             # several objectives: the target is the equivalent objective built by initialize
@@ -324,6 +326,8 @@ def adversarial_incremental_solve(script, extra_cfg=None):
                 return out
     finally:
         ps_solver.z3 = old
+    # the search is anytime: leaving the loop on the time budget (measured or extrapolated) is a documented exit
+    out["time_stop"] = "Max time" in said.getvalue()
     out["result"] = bool(sol)
     out["answers"] = log[:40]
     if not sol:
